@@ -14,7 +14,7 @@ pub enum T {
     S,   // String
     O,   // i32?
     E,   // enum E { A(i32), B(i32, i32), C }
-    R,   // record R { a: i32, b: i32 }
+    R,   // record R { b: i32, c: i32, a: i32 }
     L,   // List[i32]
     V,   // Verdict[i32, i32]  (only as a function's return type)
 }
@@ -114,6 +114,13 @@ pub fn host_ret(f: usize) -> T {
     [T::I, T::B, T::U, T::S, T::O, T::I, T::I, T::L][f]
 }
 
+/// record R { b: i32, c: i32, a: i32 }: the fields by position in the declaration — deliberately
+/// not alphabetical, so that "as written", "as declared" and "sorted by name" are three orders
+pub const FIELDS: [&str; 3] = ["b", "c", "a"];
+
+/// The six orders in which a literal can write the three fields (positions in the declaration).
+pub const PERMS: [[usize; 3]; 6] = [[0, 1, 2], [0, 2, 1], [1, 0, 2], [1, 2, 0], [2, 0, 1], [2, 1, 0]];
+
 /// enum E { A(i32), B(i32, i32), C }
 pub const VARIANTS: [(&str, usize); 3] = [("A", 1), ("B", 2), ("C", 0)];
 
@@ -139,6 +146,9 @@ pub enum E {
     Block(Blk),
     Assign(usize, Box<E>),
     CAssign(Op, usize, Box<E>),
+    /// `x.f = e` / `x.f op= e`: field (position in the declaration) of a variable of type `R`
+    AssignF(usize, usize, Box<E>),
+    CAssignF(Op, usize, usize, Box<E>),
     Ret(Box<E>),
     Accept(Box<E>),
     Reject(Box<E>),
@@ -146,7 +156,10 @@ pub enum E {
     Some(Box<E>),
     None_,
     Ctor(usize, Vec<E>),
-    Record(Vec<E>),
+    /// A literal of `R`: the fields AS WRITTEN — (position of the field in the declaration of
+    /// `R`, expression). `true`: anonymous (`{ c: …, b: …, a: … }`, typed by its context or by
+    /// itself), `false`: `R { … }`.
+    Record(bool, Vec<(usize, E)>),
     Field(Box<E>, usize),
     List(Vec<E>),
     FStr(Vec<Part>),
@@ -208,7 +221,10 @@ fn ind(n: usize) -> String {
 
 pub fn source(p: &Prog) -> String {
     let mut out = String::new();
-    out.push_str("enum E { A(i32), B(i32, i32), C }\nrecord R { a: i32, b: i32 }\n");
+    out.push_str(&format!(
+        "enum E {{ A(i32), B(i32, i32), C }}\nrecord R {{ {} }}\n",
+        FIELDS.iter().map(|f| format!("{f}: i32")).collect::<Vec<_>>().join(", ")
+    ));
     let last = p.fns.len() - 1;
     for (i, f) in p.fns.iter().enumerate() {
         let name = if i == last { "main".to_string() } else { format!("f{i}") };
@@ -320,6 +336,8 @@ pub fn expr(p: &Prog, e: &E, d: usize) -> String {
         E::Block(b) => blk(p, b, d),
         E::Assign(x, v) => format!("x{x} = {}", expr(p, v, d)),
         E::CAssign(op, x, v) => format!("x{x} {}= {}", op.sym(), expr(p, v, d)),
+        E::AssignF(x, i, v) => format!("x{x}.{} = {}", FIELDS[*i], expr(p, v, d)),
+        E::CAssignF(op, x, i, v) => format!("x{x}.{} {}= {}", FIELDS[*i], op.sym(), expr(p, v, d)),
         E::Ret(v) => format!("return {}", operand(p, v, d)),
         E::Accept(v) => format!("accept {}", operand(p, v, d)),
         E::Reject(v) => format!("reject {}", operand(p, v, d)),
@@ -329,8 +347,12 @@ pub fn expr(p: &Prog, e: &E, d: usize) -> String {
         E::Ctor(v, a) => {
             if a.is_empty() { format!("E.{}", VARIANTS[*v].0) } else { format!("E.{}({})", VARIANTS[*v].0, args(p, a, d)) }
         }
-        E::Record(fs) => format!("R {{ a: {}, b: {} }}", expr(p, &fs[0], d), expr(p, &fs[1], d)),
-        E::Field(r, i) => format!("{}.{}", operand(p, r, d), ["a", "b"][*i]),
+        E::Record(anon, fs) => format!(
+            "{}{{ {} }}",
+            if *anon { "" } else { "R " },
+            fs.iter().map(|(i, e)| format!("{}: {}", FIELDS[*i], expr(p, e, d))).collect::<Vec<_>>().join(", ")
+        ),
+        E::Field(r, i) => format!("{}.{}", operand(p, r, d), FIELDS[*i]),
         E::List(es) => format!("[{}]", args(p, es, d)),
         E::Concat(l, r) => format!("{} + {}", operand(p, l, d), operand(p, r, d)),
         E::FStr(parts) => {
@@ -418,6 +440,8 @@ pub fn sx(e: &E) -> String {
         E::Block(b) => format!("(block {})", sblk(b)),
         E::Assign(x, v) => format!("(set {x} {})", sx(v)),
         E::CAssign(op, x, v) => format!("(cset {} {x} {})", op.name(), sx(v)),
+        E::AssignF(x, i, v) => format!("(setf {x} {i} {})", sx(v)),
+        E::CAssignF(op, x, i, v) => format!("(csetf {} {x} {i} {})", op.name(), sx(v)),
         E::Ret(v) => format!("(ret {})", sx(v)),
         E::Accept(v) => format!("(accept {})", sx(v)),
         E::Reject(v) => format!("(reject {})", sx(v)),
@@ -425,7 +449,11 @@ pub fn sx(e: &E) -> String {
         E::Some(v) => format!("(some {})", sx(v)),
         E::None_ => "(none)".to_string(),
         E::Ctor(v, a) => format!("(ctor {v} {})", sxs(a)),
-        E::Record(fs) => format!("(record {})", sxs(fs)),
+        E::Record(_, fs) => format!(
+            "(record ({}) {})",
+            fs.iter().map(|(i, _)| i.to_string()).collect::<Vec<_>>().join(" "),
+            fs.iter().map(|(_, e)| sx(e)).collect::<Vec<_>>().join(" ")
+        ),
         E::Field(r, i) => format!("(field {} {i})", sx(r)),
         E::List(es) => format!("(list {})", sxs(es)),
         E::Concat(l, r) => format!("(concat {} {})", sx(l), sx(r)),
@@ -464,6 +492,8 @@ pub fn kind(e: &E) -> String {
         E::Block(_) => "block".into(),
         E::Assign(..) => "assign".into(),
         E::CAssign(..) => "compound-assign".into(),
+        E::AssignF(..) => "assign-field".into(),
+        E::CAssignF(..) => "compound-assign-field".into(),
         E::Ret(_) => "return".into(),
         E::Accept(_) => "accept".into(),
         E::Reject(_) => "reject".into(),
@@ -471,7 +501,7 @@ pub fn kind(e: &E) -> String {
         E::Some(_) => "Some".into(),
         E::None_ => "None".into(),
         E::Ctor(..) => "enum-ctor".into(),
-        E::Record(_) => "record".into(),
+        E::Record(..) => "record".into(),
         E::Field(..) => "field".into(),
         E::List(_) => "list".into(),
         E::FStr(_) => "f-string".into(),
@@ -493,12 +523,13 @@ pub fn children(e: &E) -> Vec<&E> {
     }
     match e {
         E::Int(_) | E::Bool(_) | E::Unit | E::Var(_) | E::None_ => {}
-        E::Host(_, a) | E::Call(_, a) | E::Ctor(_, a) | E::Record(a) | E::List(a) => v.extend(a.iter()),
+        E::Host(_, a) | E::Call(_, a) | E::Ctor(_, a) | E::List(a) => v.extend(a.iter()),
+        E::Record(_, fs) => v.extend(fs.iter().map(|(_, e)| e)),
         E::Bin(_, l, r) | E::And(l, r) | E::Or(l, r) | E::Concat(l, r) => {
             v.push(l);
             v.push(r);
         }
-        E::Not(x) | E::Neg(x) | E::Assign(_, x) | E::CAssign(_, _, x) | E::Ret(x) | E::Accept(x) | E::Reject(x) | E::Try(x) | E::Some(x) | E::Field(x, _) => v.push(x),
+        E::Not(x) | E::Neg(x) | E::Assign(_, x) | E::CAssign(_, _, x) | E::AssignF(_, _, x) | E::CAssignF(_, _, _, x) | E::Ret(x) | E::Accept(x) | E::Reject(x) | E::Try(x) | E::Some(x) | E::Field(x, _) => v.push(x),
         E::Ite(c, t, el) => {
             v.push(c);
             b(&mut v, t);
@@ -547,6 +578,14 @@ pub fn constructs(p: &Prog) -> (BTreeMap<String, u64>, BTreeMap<String, u64>, us
                 *cons.entry("match-wildcard".into()).or_insert(0) += 1;
             }
         }
+        if let E::Record(anon, fs) = e {
+            if fs.windows(2).any(|w| w[0].0 > w[1].0) {
+                *cons.entry("record-not-in-declared-order".into()).or_insert(0) += 1;
+            }
+            if *anon {
+                *cons.entry("record-anonymous".into()).or_insert(0) += 1;
+            }
+        }
         for (i, c) in children(e).into_iter().enumerate() {
             if effectful(c) {
                 *pos.entry(format!("{}[{}]<-{}", kind(e), i.min(3), kind(c))).or_insert(0) += 1;
@@ -575,7 +614,7 @@ pub fn default_of(t: T) -> Option<E> {
         T::S => E::FStr(vec![]),
         T::O => E::None_,
         T::E => E::Ctor(2, vec![]),
-        T::R => E::Record(vec![E::Int(0), E::Int(0)]),
+        T::R => E::Record(false, (0..FIELDS.len()).map(|i| (i, E::Int(0))).collect()),
         T::L => E::List(vec![]),
         T::V => return None,
     })
@@ -600,14 +639,14 @@ pub fn type_of(p: &Prog, e: &E) -> Option<T> {
         E::And(..) | E::Or(..) | E::Not(_) => Some(T::B),
         E::Neg(_) => Some(T::I),
         E::Ite(_, t, el) => blk_ty(p, t).or_else(|| blk_ty(p, el)),
-        E::If1(..) | E::While(..) | E::For(..) | E::Assign(..) | E::CAssign(..) => Some(T::U),
+        E::If1(..) | E::While(..) | E::For(..) | E::Assign(..) | E::CAssign(..) | E::AssignF(..) | E::CAssignF(..) => Some(T::U),
         E::Match(_, _, arms) => arms.iter().find_map(|a| blk_ty(p, &a.body)),
         E::Block(b) => blk_ty(p, b),
         E::Ret(_) | E::Accept(_) | E::Reject(_) => None,
         E::Try(_) => Some(T::I),
         E::Some(_) | E::None_ => Some(T::O),
         E::Ctor(..) => Some(T::E),
-        E::Record(_) => Some(T::R),
+        E::Record(..) => Some(T::R),
         E::Field(..) => Some(T::I),
         E::List(_) => Some(T::L),
         E::FStr(_) | E::Concat(..) => Some(T::S),
@@ -684,6 +723,18 @@ fn root_edits(p: &Prog, e: &E) -> Vec<E> {
                 let mut a = ps.clone();
                 a.remove(i);
                 out.push(E::FStr(a));
+            }
+        }
+        E::Record(anon, fs) => {
+            // the same literal with the fields written in the order of the declaration
+            if fs.windows(2).any(|w| w[0].0 > w[1].0) {
+                let mut a = fs.clone();
+                a.sort_by_key(|(i, _)| *i);
+                out.push(E::Record(*anon, a));
+            }
+            // the same literal with the type's name in front
+            if *anon {
+                out.push(E::Record(false, fs.clone()));
             }
         }
         _ => {}
@@ -769,7 +820,15 @@ fn expr_edits(p: &Prog, e: &E, k: &mut usize) -> Option<E> {
         }
         E::Call(f, a) => subv!(a, |nv| E::Call(*f, nv)),
         E::Ctor(v, a) => subv!(a, |nv| E::Ctor(*v, nv)),
-        E::Record(a) => subv!(a, E::Record),
+        E::Record(anon, fs) => {
+            for i in 0..fs.len() {
+                if let Some(n) = expr_edits(p, &fs[i].1, k) {
+                    let mut nf = fs.clone();
+                    nf[i].1 = n;
+                    return Some(E::Record(*anon, nf));
+                }
+            }
+        }
         E::List(a) => subv!(a, E::List),
         E::Bin(op, l, r) => {
             sub!(l, |n| E::Bin(*op, n, r.clone()));
@@ -791,6 +850,8 @@ fn expr_edits(p: &Prog, e: &E, k: &mut usize) -> Option<E> {
         E::Neg(x) => sub!(x, E::Neg),
         E::Assign(v, x) => sub!(x, |n| E::Assign(*v, n)),
         E::CAssign(op, v, x) => sub!(x, |n| E::CAssign(*op, *v, n)),
+        E::AssignF(v, i, x) => sub!(x, |n| E::AssignF(*v, *i, n)),
+        E::CAssignF(op, v, i, x) => sub!(x, |n| E::CAssignF(*op, *v, *i, n)),
         E::Ret(x) => sub!(x, E::Ret),
         E::Accept(x) => sub!(x, E::Accept),
         E::Reject(x) => sub!(x, E::Reject),
@@ -889,12 +950,13 @@ fn renumber(e: &mut E, removed: usize) {
             }
             a.iter_mut().for_each(|x| renumber(x, removed));
         }
-        E::Host(_, a) | E::Ctor(_, a) | E::Record(a) | E::List(a) => a.iter_mut().for_each(|x| renumber(x, removed)),
+        E::Host(_, a) | E::Ctor(_, a) | E::List(a) => a.iter_mut().for_each(|x| renumber(x, removed)),
+        E::Record(_, fs) => fs.iter_mut().for_each(|(_, x)| renumber(x, removed)),
         E::Bin(_, l, r) | E::And(l, r) | E::Or(l, r) | E::Concat(l, r) => {
             renumber(l, removed);
             renumber(r, removed);
         }
-        E::Not(x) | E::Neg(x) | E::Assign(_, x) | E::CAssign(_, _, x) | E::Ret(x) | E::Accept(x) | E::Reject(x) | E::Try(x) | E::Some(x) | E::Field(x, _) => renumber(x, removed),
+        E::Not(x) | E::Neg(x) | E::Assign(_, x) | E::CAssign(_, _, x) | E::AssignF(_, _, x) | E::CAssignF(_, _, _, x) | E::Ret(x) | E::Accept(x) | E::Reject(x) | E::Try(x) | E::Some(x) | E::Field(x, _) => renumber(x, removed),
         E::Ite(c, t, el) => {
             renumber(c, removed);
             blk(t, removed);
